@@ -177,6 +177,25 @@ func runC19(c *Ctx) {
 			sel(hard, s, p[0], p[1], 0, p[2])
 		}
 	}
+	// exact-match targets with a large minimum change: any extra coin invalidates the total
+	found := []interface{}{coinRec(1, 2, 1), coinRec(2, 0, 2), coinRec(3, 5, 0), coinRec(4, 1, 0), coinRec(5, 0, 3), coinRec(6, 3, 1), coinRec(7, 0, 0),
+		coinRec(8, 1, 0), coinRec(9, 4, 3), coinRec(10, 3, 0), coinRec(11, 5, 2)}
+	for _, s := range selectors {
+		sel(found, s, 8, 7, 3, 3)
+	}
+	for k := 0; k < c.Pick(1200, 20000); k++ {
+		n := 2 + r.Intn(10)
+		var l []interface{}
+		tgt := 0
+		for i := 0; i < n; i++ {
+			v := int64(r.Intn(7))
+			l = append(l, coinRec(i+1, v, int64(r.Intn(4))))
+			if r.Intn(3) == 0 {
+				tgt += int(v)
+			}
+		}
+		sel(l, selectors[3-k%2*k%4%4], tgt, 1+r.Intn(n+1), 2+r.Intn(4), r.Intn(5))
+	}
 	for k := 0; k < c.Pick(1500, 30000); k++ {
 		n := r.Intn(13)
 		var l []interface{}
